@@ -33,9 +33,19 @@ Definition dispatch (op : Z) (args : list tok) : value :=
              end
     | _ => VBad
     end
+  | 1605 =>
+    (* one OpusPacket over a sequence of payloads (the receiver keeps nothing between calls) *)
+    match args with
+    | [TList ps] =>
+      VList (map (fun p => match t_optbytes p with
+                           | Some ob => VList [v_res (v_bref (st_of ob)) (opus_unmarshal ob);
+                                               VBool (audio_is_partition_head ob); VBool (audio_is_partition_tail false ob)]
+                           | None => VBad end) ps)
+    | _ => VBad
+    end
   | _ => if op =? 601 then dispatch_pktz op args
          else if (op =? 2001) || (op =? 2002) then dispatch_rtp op args
          else if (100 <=? op) && (op <? 600) then dispatch_rtp op args
-         else if ((1700 <=? op) && (op <? 2000)) || (op =? 701) || (op =? 702) then dispatch_ext op args
+         else if ((1700 <=? op) && (op <? 2000)) || (op =? 701) || (op =? 702) || (op =? 703) then dispatch_ext op args
          else if (800 <=? op) && (op <? 1600) then dispatch_codecs op args else VBad
   end.
